@@ -318,6 +318,7 @@ var sharedPool = []sharedRule{
 	{"writer-handoff", func(c *Ctx, r string) { checkWriterHandoff(c, r) }},
 	{"meta-regexp-anchored", func(c *Ctx, r string) { checkMetaRegexpAnchored(c, r) }},
 	{"writeat-offset-advances", func(c *Ctx, r string) { checkWriteAtOffsetAdvances(c, r) }},
+	{"list-apply-errors", func(c *Ctx, r string) { checkListApplySiblings(c, r) }},
 	{"writer-buf-leaf-sized", func(c *Ctx, r string) { checkWriterBufIsLeafSized(c, r) }},
 	{"glob-cache-writers", func(c *Ctx, r string) { checkGlobCacheWriters(c, r) }},
 	{"nothing-deleted-after-repo-descriptor", func(c *Ctx, r string) { checkNothingDeletedAfterRepoDescriptor(c, r) }},
@@ -370,4 +371,97 @@ func runSharedPool(c *Ctx) {
 func (s *propSpec) runAll(c *Ctx) {
 	s.run(c)
 	runSharedPool(c)
+}
+
+// runAllCross is runAll followed by the cross pool: the function-scoped obligations recorded by every OTHER property's
+// own rules, kept when their construct lies in a function this property's operations reach. A clause is written once,
+// under the property it was found for; it is a necessary condition of every property that executes the function it
+// constrains (ListLabelsApply is executed by the label operations as well as by the listings). Registering such
+// clauses by hand under each property leaves gaps; the shared pool closed them for the clauses listed there, the cross
+// pool closes them for all. Known findings, instance floors and UNDECIDED verdicts stay with the owning property.
+func (s *propSpec) runAllCross(c *Ctx, verifDir string) {
+	s.runAll(c)
+	entries := propertyEntries[c.Prop]
+	if len(entries) == 0 {
+		return
+	}
+	p := c.P
+	reach := p.reach(entries)
+	if p.crossObs == nil {
+		p.crossObs = map[string][]Obligation{}
+		saveTouched := p.touched
+		p.touched = nil
+		var ids []string
+		for id := range registry {
+			ids = append(ids, id)
+		}
+		sort.Strings(ids)
+		for _, id := range ids {
+			cq := newCtx(id, c.Tier, p)
+			func() {
+				defer func() {
+					if r := recover(); r != nil {
+						if _, ok := r.(undecidedErr); ok {
+							return // the owner reports it
+						}
+						panic(r)
+					}
+				}()
+				registry[id].run(cq)
+			}()
+			p.crossObs[id] = cq.Obs
+		}
+		p.touched = saveTouched
+	}
+	known := loadKnown(verifDir)
+	have := map[string]bool{}
+	for _, o := range c.Obs {
+		have[o.Key+"|"+o.Detail] = true
+		if i := strings.Index(o.Rule, "."); i >= 0 {
+			have[o.Key+"|rule:"+lastRuleWord(o.Rule)] = true
+		}
+	}
+	n := 0
+	var qs []string
+	for q := range p.crossObs {
+		qs = append(qs, q)
+	}
+	sort.Strings(qs)
+	for _, q := range qs {
+		if q == c.Prop {
+			continue
+		}
+		for _, o := range p.crossObs[q] {
+			fn := p.funcOfKey(o.Key)
+			if fn == "" || !reach[fn] {
+				continue
+			}
+			if have[o.Key+"|"+o.Detail] || have[o.Key+"|rule:"+lastRuleWord(o.Rule)] {
+				continue
+			}
+			isKnown := false
+			for _, k := range known {
+				if k.Property == q && k.Rule == o.Rule && k.Key == o.Key {
+					isKnown = true
+				}
+			}
+			if isKnown {
+				continue
+			}
+			have[o.Key+"|"+o.Detail] = true
+			o.Rule = c.Prop + ".x" + q + "." + strings.TrimPrefix(o.Rule, q+".")
+			c.Obs = append(c.Obs, o)
+			n++
+		}
+	}
+	c.note("cross pool: %d obligations recorded by other properties' rules lie in functions reachable from this property's operations", n)
+}
+
+// lastRuleWord: the last component of a rule id ("C07.siblings.apply-errors" -> "apply-errors"): the same check is
+// registered under different group names by different properties.
+func lastRuleWord(rule string) string {
+	if i := strings.LastIndex(rule, "."); i >= 0 {
+		return rule[i+1:]
+	}
+	return rule
 }
